@@ -15,7 +15,7 @@ CONFIG = {
                 "every field type as single field, array (1 in 4) or map (1 in 7, with minPairs/maxPairs/singleForm), rules as in "
                 "compile.rules plus descriptions, list filter/sort/search settings (enum default filters: 9 in 10 naming options, "
                 "with or without prefix), flatten, key formats, primary/foreign/tenant entity keys, enum declarations with "
-                "prefixes, prefixed options and explicit UNSPECIFIED; compiled by the real compiler, reflected by lib/j5schema "
+                "prefixes, prefixed options and explicit UNSPECIFIED, a description on the enum and on none / some / all of its options (incl. the explicitly declared zero option); compiled by the real compiler, reflected by lib/j5schema "
                 "(SchemaCache.Schema / ToJ5Root) from the in-memory descriptors and from protoprint text re-parsed with "
                 "protocompile. Oracle: declared root and fields (built from the generator's spec, not from the parser) = reflected, "
                 "key by key, modulo normalisations N1-N6 (harness/PROTOCOL-rules.md); text path = in-memory path. "
